@@ -843,8 +843,26 @@ impl World {
         let deps: cosmwasm_std::Deps<Empty> = cosmwasm_std::Deps { storage: &self.kv, api: &api, querier: QuerierWrapper::new(&q) };
         staking::state::ADMIN.get(deps).ok().flatten().map(|a| a.to_string())
     }
+    /// the State query; if the query itself fails (or panics) the totals are read from the stored
+    /// item so that the harness keeps running, and the failure is reported by `state_checked`
     pub fn state(&self) -> staking::msg::StateResponse {
-        self.query(QueryMsg::State {}).expect("State query")
+        match self.state_checked() {
+            Ok(s) => s,
+            Err(_) => {
+                let st = staking::state::STATE.load(&self.kv).expect("STATE item");
+                staking::msg::StateResponse {
+                    total_native_token: st.total_native_token,
+                    total_liquid_stake_token: st.total_liquid_stake_token,
+                    rate: cosmwasm_std::Decimal::zero(),
+                    pending_owner: st.pending_owner.map(|a| a.to_string()).unwrap_or_default(),
+                    total_reward_amount: st.total_reward_amount,
+                    total_fees: st.total_fees,
+                }
+            }
+        }
+    }
+    pub fn state_checked(&self) -> Result<staking::msg::StateResponse, String> {
+        self.query(QueryMsg::State {})
     }
     pub fn config(&self) -> staking::msg::ConfigResponse {
         self.query(QueryMsg::Config {}).expect("Config query")
